@@ -93,6 +93,26 @@ LexLess(x, y) == IF x = <<>> THEN y # <<>> ELSE IF y = <<>> THEN FALSE
 TcLess(x, y) == IF Len(x) # Len(y) THEN Len(x) < Len(y) ELSE LexLess(x, y)
 SortTcs(T) == SortSeq(SetToSeq(T), TcLess)
 
+(***************************************************************************)
+(* S3  src/cluster.rs GraphemeCluster::from: the test case is cut into      *)
+(* extended grapheme clusters (oracle: the segmentation tables, cell        *)
+(* attribute gb = "a cluster starts here"); a cluster of several characters *)
+(* is kept as ONE symbol unless it contains a backslash (bs) or a character *)
+(* of general category Mark / Other (sp) - then every character becomes its *)
+(* own symbol.  Result: the sequence of symbol lengths.                     *)
+(***************************************************************************)
+ClusterEnds(w) == {i \in DOMAIN w : i = Len(w) \/ w[i + 1].gb}
+RECURSIVE SegFrom(_, _)
+SegFrom(w, i) ==
+  IF i > Len(w) THEN <<>>
+  ELSE LET j == Min({e \in ClusterEnds(w) : e >= i})
+           n == j - i + 1
+           split == (n >= 2 /\ \E x \in i .. j : w[x].bs) \/ (\E x \in i .. j : w[x].sp)
+       IN (IF split /\ n >= 2 THEN [x \in 1 .. n |-> 1] ELSE <<n>>) \o SegFrom(w, j + 1)
+SegmentLens(w) == SegFrom(w, 1)
+(* design facts of the rule (checked in MC_Segment): a backslash and a mark never share a symbol with anything *)
+SegStarts(lens) == LET RECURSIVE F(_, _) F(ls, at) == IF ls = <<>> THEN <<>> ELSE <<at>> \o F(Tail(ls), at + Head(ls)) IN F(lens, 1)
+
 (* S3 (no class / repetition conversion): one plain symbol per character *)
 PlainSym(a) == [u |-> <<<<a>>>>, lo |-> 1, hi |-> 1, nest |-> <<>>]
 PlainCluster(w) == [i \in DOMAIN w |-> PlainSym(w[i])]
